@@ -2839,7 +2839,13 @@ class Parameters:
         # the callbacks that run meanwhile are ordinary assignments)
         self_._TRIGGER = set(params) | set(triggers)
         try:
-            self_.update(dict(params, **triggers))
+            if self_.self is None:
+                self_.update(dict(params, **triggers))
+            else:
+                # Re-assigning the current values must not be taken for an
+                # override of the references these parameters are linked to
+                with _syncing(self_.self, params):
+                    self_.update(dict(params, **triggers))
         finally:
             self_._TRIGGER = False
             # Re-queue what was pending before the trigger, in order, and
